@@ -678,6 +678,7 @@ func randomSequences(r *vk.Run) {
 					if rng.Bool() {
 						op.Opts.HasReadMask, op.Opts.ReadMask = true, validOnly(tc.info.Zero, mask())
 					}
+					op.Opts.IncludeCheck = rng.Chance(1, 3) // with or without a mask: the predicate sees the stored item
 				case 2, 3:
 					op = sm.Op{Kind: sm.Delete, ID: pickID()}
 				case 4, 5:
